@@ -164,8 +164,8 @@ func c16One(o *E2Out, dir string, in c16Input, full bool) {
 	eval := func(m permMode) {
 		in.Mode = m.String()
 		o.Evaluations++
-		if in.Replicas >= 2 {
-			o.Distinct++
+		if in.Replicas >= 2 && m.Kind == "default" {
+			o.Distinct++ // distinct inputs: the map-order variants of one file count once
 		}
 		var prj *types.Project
 		var err error
